@@ -71,10 +71,12 @@ def jobs(tier, seed):
                 res.append([[list(st), list(e1)], [list(st), list(e2)]] + ([[list(e2), list(st)], [list(st), list(e1)]] if (tier != "quick" or r * c <= 6) else []))
         return res
 
-    for r, c, starts, k in ([(2, 3, [(0, 0), (0, 1), (1, 2)], 2), (2, 4, [(0, 0), (1, 1)], 2), (3, 3, [(0, 0), (1, 0), (1, 1), (2, 1)], 2 if tier == "quick" else 14)]
-                            + ([(2, 4, [(0, 1), (0, 3), (1, 0), (1, 2)], 4), (3, 4, [(0, 0), (1, 1)], 2), (4, 3, [(1, 0)], 2)] if tier != "quick" else [])):
-        for q in seqs(r, c, starts, k):
-            out.append(dict(h="astar_seq", r=r, c=c, queries=q, max_seconds=3000))
+    for r, c, starts, k in ([(2, 3, [(0, 0), (0, 1), (1, 2)], 2), (2, 4, [(0, 0), (1, 1)], 2), (3, 3, [(0, 0), (1, 0), (1, 1), (2, 1)], 2 if tier == "quick" else 10)]
+                            + ([(2, 4, [(0, 1), (0, 3), (1, 0), (1, 2)], 4), (2, 3, [(0, 2), (1, 0), (1, 1)], 4)] if tier != "quick" else [])):
+        for q_ in seqs(r, c, starts, k):
+            if tier != "quick" and r * c == 9:
+                q_ = q_[:2]  # on 9 cells two queries per history (four queries walk through nearly all 4096 mazes per instance)
+            out.append(dict(h="astar_seq", r=r, c=c, queries=q_, max_seconds=3000))
     out[0]["twin"] = True
     return out
 
@@ -323,7 +325,7 @@ META = dict(
     bounds=dict(
         quick="all connection structures (every bit symbolic) on all grids r x c with r*c <= 6 and all ordered (start,end) pairs; 3x3 with 12 pairs; "
               "histories of queries on one maze object (two from the same start; on 2x3 also the reverse and a repeat) on 2x3, 2x4 and 3x3 (18 seeded histories)",
-        thorough="as quick, plus 3x3 all 81 pairs, 3x4 and 4x3 with 6 pairs each, 2x8 (all 2^22 mazes) for the pair (0,7)->(1,0), solve_targeted on 3x3 all pairs",
+        thorough="as quick (query histories: 40 on 3x3, 28 on 2x3 / 2x4), plus 3x3 all 81 pairs, 3x4 and 4x3 with 6 pairs each, 2x8 (all 2^22 mazes) for the pair (0,7)->(1,0), solve_targeted on 3x3 all pairs",
     ),
     degenerate={},
     stubs=stubs_description(),
